@@ -43,7 +43,10 @@ def sample_row(k, fault, I):
     """Row k of the samples table with the given fault injected."""
     row = {'ID': 'S%d' % (k + 1), 'Instrument ID': 'I1', 'File Path': 's%d.fcs' % (k + 1),
            'Gate Fraction': 0.3 + 0.1 * k, 'Beads ID': 'B1', 'FL1 Units': 'MEF',
-           'FL2 Units': ['RFI', 'MEF', 'a.u.'][k], 'GFP Units': None}
+           'FL2 Units': ['RFI', 'MEF', None][k], 'GFP Units': None}
+    # (row 2 calibrates two channels, row 3 reports FL1 only: rows with different reported
+    # channels make any state carried from one row to the next observable in the events, not
+    # only in the call sequence)
     if fault == F_NOFILE:
         row['File Path'] = 'missing%d.fcs' % k
     elif fault == F_GATE:
@@ -315,6 +318,18 @@ def replay_samples(B, I):
                 return False, 'documented row fault %d not recorded as that row\'s error' % faults[k]
             if faults[k] == F_NONE and isinstance(got, xl.ExcelUIException):
                 return False, 'healthy row became an error: %s' % (got,)
+            if faults[k] == F_NONE:
+                import numpy as rnp
+                with warnings.catch_warnings():
+                    warnings.simplefilter('ignore')
+                    alone = catch(xl.process_samples_table, stab.loc[[row['ID']]], itab,
+                                  mef_transform_fxns=fx, beads_table=btab, base_dir=tmp,
+                                  verbose=False, plot=False)
+                a = alone[1].get(row['ID']) if alone[0] == 'ok' else None
+                if a is None or isinstance(a, xl.ExcelUIException) or a.shape != got.shape or \
+                        not rnp.array_equal(rnp.asarray(a), rnp.asarray(got)) or \
+                        a.channels != got.channels or a.range() != got.range():
+                    return False, 'healthy row differs from its single-row result'
         return True
     finally:
         shutil.rmtree(tmp, ignore_errors=True)
